@@ -645,6 +645,129 @@ def spec_pp_vs_gcc(ctx, res, drv, cases, name):
     res.oblig("spec:%s-vs-gcc" % name, not bad, "correspondence", "" if not bad else "%d differ; first: %s" % (len(bad), bad[0]))
 
 
+# ---- M1 (audit): the directive loop against the abstract inclusion machine ------------------------------------------------
+
+def sk_tie(ctx, res, drv, cases, io):
+    """for every conditional source: lines kept by `runC` on the skeleton of the run == lines kept by the model's directive loop
+    (theorem runLines_kept_eq_runC, executed) == lines the real simplecpp kept (the generated text lines start with t<k>)"""
+    ops = ["sk %s %s %s %s" % (CODE_Q[0], lst(d), lst(u), hx(s)) for s, d, u in cases]
+    mo = core.run_lines(drv, [], ops, timeout=600)[1]
+    bad = []
+    n = 0
+    for (src, d, u), m, o in zip(cases, mo, io):
+        mm = re.match(r"^K (.*) \| (.*)$", m)
+        it = toks_of(o)
+        if not mm or it is None:
+            continue
+        n += 1
+        a, b = mm.group(1).split(), mm.group(2).split()
+        lines = src.split("\n")
+        kept_impl = [str(i) for i, l in enumerate(lines) if re.match(r"t\d+ ", l) and l.split()[0] in it]
+        text_b = [x for x in b if re.match(r"t\d+ ", lines[int(x)])]
+        if a != b or text_b != kept_impl:
+            bad.append("%r: runC %s, directive loop %s, simplecpp %s" % (src, a, b, kept_impl))
+    res.count("skeleton-cases", n)
+    res.oblig("correspondence:runC-skeleton=directive-loop=simplecpp", not bad and n > 0, "correspondence",
+              "" if not bad and n > 0 else "%d of %d differ; first: %s" % (len(bad), n, bad[0] if bad else "no case"))
+
+
+# ---- M2 (audit): #include resolution, -I, --include: the real Preprocessor on files against gcc (no model) ----------------
+
+KEY_INC = {}
+
+
+def gen_include_tree(rng, root):
+    """writes a directory tree; returns (include dirs, forced includes, main file, description)"""
+    os.makedirs(root)
+    dirs = {"": root, "a": os.path.join(root, "a"), "b": os.path.join(root, "b"), "sub": os.path.join(root, "sub")}
+    for k, d in dirs.items():
+        os.makedirs(d, exist_ok=True)
+    files = {}
+
+    def put(rel, text):
+        files[rel] = text
+        open(os.path.join(root, rel), "w").write(text)
+
+    hdrs = ["x.h", "y.h", "w.h"]
+    isel = rng.sample(["a", "b"], rng.choice([0, 1, 2, 2]))
+    where = {}
+    for h in hdrs:
+        places = [p for p in ["", "a", "b"] if rng.random() < 0.55] or [rng.choice(["", "a", "b"])]
+        where[h] = places
+        for pl in places:
+            tag = h[0] + "_" + (pl or "src")
+            body = []
+            guard = rng.random() < 0.5
+            once = (not guard) and rng.random() < 0.3
+            if guard:
+                body += ["#ifndef G_%s" % h[0].upper(), "#define G_%s" % h[0].upper()]
+            if once:
+                body.append("#pragma once")
+            body.append("#define %s %s_val" % (h[0].upper(), tag))
+            body.append("%s_text ;" % tag)
+            if h == "x.h" and rng.random() < 0.5 and isel:
+                body.append('#include "w.h"' if rng.random() < 0.7 else "#include <w.h>")
+            if guard:
+                body.append("#endif")
+            put(os.path.join(pl, h) if pl else h, "\n".join(body) + "\n")
+    put(os.path.join("sub", "z.h"), '#define Z z_sub_val\nz_sub_text ;\n' + ('#include "../x.h"\n' if "" in where["x.h"] and rng.random() < 0.5 else ""))
+    forced = []
+    if rng.random() < 0.5:
+        put("f.h", "#define F forced_val\nforced_text ;\n")
+        forced.append(os.path.join(root, "f.h"))
+    main = ["main_start ;"]
+    for _ in range(rng.randrange(2, 6)):
+        r = rng.random()
+        h = rng.choice(hdrs)
+        # mostly headers that can be found (a header found nowhere is an error for gcc: such trees are not compared)
+        if r < 0.8 and rng.random() < 0.9:
+            quoted_ok = "" in where[h] or any(d in where[h] for d in isel)
+            angle_ok = any(d in where[h] for d in isel)
+            if not quoted_ok:
+                continue
+            r = 0.1 if not angle_ok else r
+        if r < 0.45:
+            main.append('#include "%s"' % h)
+        elif r < 0.8:
+            main.append("#include <%s>" % h)
+        else:
+            main.append('#include "sub/z.h"')
+        main.append("use X Y W Z F ;")
+    put("main.c", "\n".join(main) + "\n")
+    idirs = [os.path.join(root, d) for d in isel]
+    return idirs, forced, "main.c", files
+
+
+def inc_tie(ctx, res, exe, n):
+    rng = ctx.rng
+    bad = 0
+    for k in range(n):
+        root = os.path.join(ctx.tmp, "inc%d" % k)
+        idirs, forced, main, files = gen_include_tree(rng, root)
+        op = "inc %s %s %s %s" % (hx(root), lst(idirs), lst(forced), hx(main))
+        o = canon_pp(core.run_lines(exe, [], [op], timeout=60)[1][0])
+        cmd = ["gcc", "-E", "-P", "-undef", "-nostdinc"] + [x for d in idirs for x in ("-I", d)] + [x for f in forced for x in ("-include", f)] + [main]
+        r = subprocess.run(cmd, cwd=root, stdout=subprocess.PIPE, stderr=subprocess.PIPE, text=True)
+        res.count("include-cases")
+        if r.returncode != 0:
+            res.count("include-gcc-rejects")          # a header that is found nowhere
+            continue
+        g = pylex(r.stdout)
+        it = toks_of(o)
+        res.case("inc|" + json.dumps(files, sort_keys=True) + "|" + " ".join(idirs) + "|" + " ".join(forced), True,
+                 dict(tie="include", files=files, I=[os.path.basename(d) for d in idirs], forced=[os.path.basename(f) for f in forced],
+                      impl=" ".join(it or [o])) if k % 10 == 0 else None)
+        if it == g:
+            res.traces_validated += 1
+            continue
+        bad += 1
+        report(res, "#include resolution: cppcheck's preprocessor and gcc -E disagree\n-I %s --include %s\n%s\n  cppcheck: %s\n  gcc     : %s" %
+               ([os.path.relpath(d, root) for d in idirs], [os.path.relpath(f, root) for f in forced],
+                "\n".join("--- %s\n%s" % kv for kv in sorted(files.items())), " ".join(it) if it is not None else o, " ".join(g)),
+               dict(kind="inc", files=files, I=[os.path.relpath(d, root) for d in idirs], forced=[os.path.relpath(f, root) for f in forced]), None)
+    res.oblig("P_impl:include-resolution-vs-gcc", bad == 0, "correspondence", "" if not bad else "%d of %d trees differ (see the violations)" % (bad, n))
+
+
 # ---- createDUI tie ---------------------------------------------------------------------------------------------------------
 
 NAMES = ["A", "B", "C", "DD"]
@@ -758,11 +881,15 @@ def run(ctx, res):
         d, u = gen_defs(rng)
         cases.append((src, d, u))
         res.count("pp-cond-source")
-    pp_tie(ctx, res, exe, drv, cases, "preprocess-conditionals", 1500 if thorough else 120)
+    cio, cmo = pp_tie(ctx, res, exe, drv, cases, "preprocess-conditionals", 1500 if thorough else 120)
+    sk_tie(ctx, res, drv, cases, cio)
     spec_pp_vs_gcc(ctx, res, drv, cases[:(600 if thorough else 60)], "conditionals")
 
     # ---- C-dui ---------------------------------------------------------------------------------------------------------------
     cd_tie(ctx, res, exe, drv, 2000 if thorough else 300)
+
+    # ---- #include / -I / --include (no model: implementation against gcc) ----------------------------------------------------
+    inc_tie(ctx, res, exe, 300 if thorough else 30)
 
 
 def replay(ctx, res, rp):
@@ -784,6 +911,21 @@ def replay(ctx, res, rp):
         it = toks_of(o)
         print("%s  simplecpp: %s\n  gcc      : %s" % (rp["src"], " ".join(it) if it is not None else o, " ".join(g) if g is not None else gerr))
         fail = g is not None and it != g
+    elif rp.get("kind") == "inc":
+        root = os.path.join(ctx.tmp, "replay_inc")
+        for rel, text in rp["files"].items():
+            os.makedirs(os.path.dirname(os.path.join(root, rel)), exist_ok=True)
+            open(os.path.join(root, rel), "w").write(text)
+        idirs = [os.path.join(root, d) for d in rp["I"]]
+        forced = [os.path.join(root, f) for f in rp["forced"]]
+        for d in idirs:
+            os.makedirs(d, exist_ok=True)
+        o = canon_pp(core.run_lines(exe, [], ["inc %s %s %s %s" % (hx(root), lst(idirs), lst(forced), hx("main.c"))])[1][0])
+        r = subprocess.run(["gcc", "-E", "-P", "-undef", "-nostdinc"] + [x for d in idirs for x in ("-I", d)] + [x for f in forced for x in ("-include", f)] + ["main.c"],
+                           cwd=root, stdout=subprocess.PIPE, stderr=subprocess.PIPE, text=True)
+        it, g = toks_of(o), pylex(r.stdout)
+        print("cppcheck: %s\ngcc     : %s" % (" ".join(it) if it is not None else o, " ".join(g)))
+        fail = r.returncode == 0 and it != g
     elif rp.get("kind") == "cd":
         rc, io, err = core.run_lines(exe, [], ["cd %s %s %s %s" % (hx(rp["ud"]), lst(rp["undefs"]), hx(rp["cfg"]), hx(rp["src"]))])
         print(rp["src"]); print(canon_pp(io[0]))
